@@ -921,4 +921,38 @@ Section Whole.
       + (* the parse ended here with io.EOF: the scanner, too, says there is no further pair *)
         unfold KR in Rst. rewrite Rst in E3. destruct pre; discriminate.
   Qed.
+
+  (* the public statements, at the fuel the entry points use *)
+  Theorem parse2_frame : forall s dest d',
+    parse2 mode rdr jdec s dest = POk d' ->
+    forall q, (forall p, In p (names_of mode rdr jdec s) -> drel false p q = false) ->
+    dget q (VMap d') = dget q (VMap dest)
+    \/ (dget q (VMap dest) = None /\ dget q (VMap d') = Some VNull
+        /\ exists p, In p (names_of mode rdr jdec s) /\ pad_pos p q = true).
+  Proof. intros s dest d' H q Hq. exact (parse_loop2_frame _ _ _ _ H q Hq). Qed.
+
+  Theorem parse2_value : forall s dest d',
+    parse2 mode rdr jdec s dest = POk d' ->
+    forall pre p v post, pairs_of mode rdr jdec s = (pre ++ (p, Some v) :: post)%list ->
+    keys_nonempty p = true ->
+    (forall p', In p' (map fst post) -> drel false p' p = false) ->
+    dget p (VMap d') = Some v.
+  Proof. intros s dest d' H. exact (parse_loop2_value _ _ _ _ H). Qed.
 End Whole.
+
+(* non-vacuity: nested indexes of depth 3, two pairs, a list that grows, an unrelated sibling *)
+Definition ex3_dest : vmap := [("a", VList [VList [VNum 1]; VStr "keep"]); ("z", VMap [("k", VBool true)])].
+
+Example ex_parse2_frame :
+  parse_into2 "a[0][3][1]=x,b.c=2" ex3_dest
+  = POk [("a", VList [VList [VNum 1; VNull; VNull; VList [VNull; VStr "x"]]; VStr "keep"]);
+         ("z", VMap [("k", VBool true)]); ("b", VMap [("c", VNum 2)])]
+  /\ names_of MTyped no_rdr no_jdec "a[0][3][1]=x,b.c=2" = [[SKey "a"; SIdx 0; SIdx 3; SIdx 1]; [SKey "b"; SKey "c"]]
+  /\ pairs_of MTyped no_rdr no_jdec "a[0][3][1]=x,b.c=2"
+     = [([SKey "a"; SIdx 0; SIdx 3; SIdx 1], Some (VStr "x")); ([SKey "b"; SKey "c"], Some (VNum 2))]
+  /\ drel false [SKey "a"; SIdx 0; SIdx 3; SIdx 1] [SKey "a"; SIdx 1] = false
+  /\ drel false [SKey "a"; SIdx 0; SIdx 3; SIdx 1] [SKey "a"; SIdx 0; SIdx 0] = false
+  /\ pad_pos [SKey "a"; SIdx 0; SIdx 3; SIdx 1] [SKey "a"; SIdx 0; SIdx 2] = true
+  /\ pad_pos [SKey "a"; SIdx 0; SIdx 3; SIdx 1] [SKey "a"; SIdx 0; SIdx 3; SIdx 0] = true
+  /\ pad_pos [SKey "a"; SIdx 0; SIdx 3; SIdx 1] [SKey "a"; SIdx 0; SIdx 4] = false.
+Proof. repeat split; reflexivity. Qed.
